@@ -112,6 +112,8 @@ Lemma winv_g_wake own cur w : winv own cur w -> winv own cur (g_wake w).
 Proof. apply winv_frame; reflexivity. Qed.
 Lemma winv_g_item own cur w : winv own cur w -> winv own cur (g_item w).
 Proof. apply winv_frame; reflexivity. Qed.
+Lemma winv_g_done own cur w : winv own cur w -> winv own cur (g_done w).
+Proof. apply winv_frame; reflexivity. Qed.
 
 Lemma winv_emit own cur e w : bad_event e = false -> winv own cur w -> winv own cur (emit e w).
 Proof.
